@@ -125,7 +125,7 @@ func (fx *fexec) staticCall(x *ssa.Call, f *ssa.Function, args []Val, bind []Val
 		defer restore()
 		return fx.applyContract(c, body, args, st, pos, x.Name())
 	}
-	inRepo := strings.HasPrefix(key, repoModule)
+	inRepo := inRepoPath(key)
 	if len(body.Blocks) > 0 && (inRepo || (c != nil && c.Inline)) && fx.depth < 8 && !fx.onStack(body) {
 		restore := fx.calleeSubst(f)
 		defer restore()
@@ -300,6 +300,19 @@ func (fx *fexec) havocLocation(sc *SpecCtx, x *SX, st *State) {
 		if x.Args[1].K == "id" && x.Args[1].Op == "_" || x.Args[1].K == "un" {
 		}
 		s := sc.eval(x.Args[0])
+		if mt, isMap := vc.under(s.Ty).(*types.Map); isMap {
+			// m[*]: presence, values and size of map m
+			pc, vcmp, vsort, lc, lsort := vc.mapComps(mt)
+			for _, c := range [][2]string{{pc, vc.compSort[pc]}, {vcmp, vsort}, {lc, lsort}} {
+				h := vc.heapGet(st, c[0], c[1])
+				nv := vc.fresh("havoc_map", arrayElemSort(c[1]))
+				if c[0] == lc {
+					vc.assert(ge(nv, intLit(0)))
+				}
+				vc.heapSet(st, c[0], store(h, s.T, nv))
+			}
+			return
+		}
 		et := vc.under(s.Ty).(*types.Slice).Elem()
 		comp, srt := vc.elemComp(et)
 		h := vc.heapGet(st, comp, srt)
